@@ -308,3 +308,12 @@ Example C12_degenerate_concrete :
   guard_many cats aligned (1#2) = true /\ c12_guardd_case cats aligned true = 0%nat /\
   c12_guardd_case cats aligned false = 1%nat.
 Proof. vm_compute. repeat split; reflexivity. Qed.
+
+(* ---------------- a stored zero is a value (Model/SmallVariants2.v) ---------------- *)
+From Verif Require SmallVariants2 SmallVariants2P.
+Theorem C12_restored_sum_is_the_stored_one : forall stored count : nat, SmallVariants2.restore_sum stored count = stored.
+Proof. exact SmallVariants2P.restore_sum_any. Qed.
+Print Assumptions C12_restored_sum_is_the_stored_one.
+Theorem C12_restored_sum_or_count_refuted : exists count : nat, SmallVariants2.restore_sum_or 0%nat count <> SmallVariants2.restore_sum 0%nat count.
+Proof. exact SmallVariants2P.restore_sum_or_refuted. Qed.
+Print Assumptions C12_restored_sum_or_count_refuted.
